@@ -87,6 +87,10 @@ type Walker struct {
 	Effect func(ins ssa.Instruction) (string, bool)
 	// Edge classifies CFG edges (e.g. the closed edge of a channel receive).
 	Edge func(from *ssa.BasicBlock, succ int) (string, bool)
+	// CondEdge classifies a branch by the value its condition resolves to on
+	// the path (through φs and negation) – e.g. the comma-ok result of a channel
+	// receive that was kept in a variable (`open`) and tested later.
+	CondEdge func(v ssa.Value, truth bool) (string, bool)
 	// Stop ends a path at an instruction (region end); the instruction's own
 	// effect is not counted.
 	Stop      func(ins ssa.Instruction) bool
@@ -442,11 +446,33 @@ func (w *Walker) walk(fn *ssa.Function, st *PState, b *ssa.BasicBlock, idx int, 
 			return
 		case *ssa.If:
 			val, known, key := w.evalCond(st, x.Cond)
+			// the condition as a value of the path: what a flag variable holds here
+			condEdge := func(s *PState, k int) {
+				if w.CondEdge == nil {
+					return
+				}
+				cv, neg := x.Cond, false
+				for {
+					if u, ok := cv.(*ssa.UnOp); ok && u.Op == token.NOT {
+						cv, neg = u.X, !neg
+						continue
+					}
+					break
+				}
+				rv := w.resolve(s, cv)
+				if rv == x.Cond {
+					return // tested directly: Edge sees it
+				}
+				if name, ok := w.CondEdge(rv, (k == 0) != neg); ok {
+					s.Counts[name]++
+				}
+			}
 			if known {
 				k := 1
 				if val {
 					k = 0
 				}
+				condEdge(st, k)
 				w.enter(fn, st, b, k, ends)
 				return
 			}
@@ -455,6 +481,8 @@ func (w *Walker) walk(fn *ssa.Function, st *PState, b *ssa.BasicBlock, idx int, 
 				s0.setMemo(key, true)
 				s1.setMemo(key, false)
 			}
+			condEdge(s0, 0)
+			condEdge(s1, 1)
 			w.enter(fn, s0, b, 0, ends)
 			w.enter(fn, s1, b, 1, ends)
 			return
